@@ -167,6 +167,10 @@ def run(pid, spec, tier):
         elif name == "bounded_quota_corpus":
             import bounded_standin
             out.append(bounded_standin.quota_corpus(pid))
+        elif name == "bounded_subtype_memo":
+            import bounded_standin
+            import subtype_standin
+            out.append(subtype_standin.run(pid, bounded_standin.build_replay))
         elif name == "bounded_history_corpus":
             import bounded_standin
             out.append(bounded_standin.history_corpus(pid))
